@@ -84,6 +84,17 @@ def sections : List Nat → List Section
   | a :: b :: c :: rest => { flags := w a, addr := w b, size := w c } :: sections rest
   | _ => []
 
+/-- the kernel's flag constants by name (regenerated from the compiled package), in x86-64 bit order -/
+def namedFlags : List Nat :=
+  [Firefly.Gen.C04.flagPresent, Firefly.Gen.C04.flagRW, Firefly.Gen.C04.flagUserAccessible,
+   Firefly.Gen.C04.flagWriteThroughCaching, Firefly.Gen.C04.flagDoNotCache, Firefly.Gen.C04.flagAccessed,
+   Firefly.Gen.C04.flagDirty, Firefly.Gen.C04.flagHugePage, Firefly.Gen.C04.flagGlobal,
+   Firefly.Gen.C04.flagCopyOnWrite, Firefly.Gen.C04.flagNoExecute]
+
+/-- what the x86-64 architecture (and the kernel's documentation of its software bit) says those flags
+are: literal bit positions, independent of the package's constants -/
+def archFlagBits : List Nat := [0, 1, 2, 3, 4, 5, 6, 7, 8, 9, 63]
+
 /-- run one op on the model: new state and the observation text -/
 def modelStep (r : RSt) (name : String) (op : List Nat) : RSt × String :=
   let st0 := { r.st with flushes := [], allocs := 0 }
@@ -106,6 +117,7 @@ def modelStep (r : RSt) (name : String) (op : List Nat) : RSt × String :=
     let mem := fs.foldl (fun m f => if m.backed f then m.setFrame f (fun i => w f * w (2 * i + 1) + w i) else m) st0.mem
     fin (.ok ((0, 0), { st0 with free := fs.map w, mem := mem })) r
   | "map", [p, f, fl] => fin (code (mapOp st0 (w p) (w f) (w fl))) r
+  | "mapflag", [p, f, i] => fin (code (mapOp st0 (w p) (w f) (fPresent ||| w (namedFlags.getD i 0)))) r
   | "unmap", [p] => fin (code (unmapOp st0 (w p))) r
   | "xlate", [va] => fin (translate st0 (w va)) r
   | "maptmp", [f] => fin (mapTemporary st0 (w f)) r
@@ -124,6 +136,10 @@ def modelStep (r : RSt) (name : String) (op : List Nat) : RSt × String :=
   | "pf", [addr, _] => fin (unit (pageFault st0 (w addr))) r
   | "gpf", [_, _] => fin (unit (gpFault st0)) r
   | "secs", xs => fin (.ok ((0, 0), st0)) { r with secs := sections xs }
+  | "secsmb", xs =>
+    -- through multiboot.VisitElfSections: empty sections are not reported, the flags word is cut to 32 bits
+    fin (.ok ((0, 0), st0)) { r with secs := (sections xs).filterMap fun s =>
+      if s.size = 0 then none else some { s with flags := s.flags &&& 0xffffffff#64 } }
   | "reserve", [sz] =>
     let ((c, a), st) := earlyReserve st0 (w sz)
     fin (.ok ((c, a), st)) r
